@@ -35,3 +35,13 @@ for frm, to in ((1, 2), (2, 3), (3, 4), (2, 1), (3, 2), (4, 3)):
         roots={'CTOR': ctor, 'SRC_FIND': node_rx(nf, '64', 'db') + r'find_child\(std::byte\)', 'DST_FIND': node_rx(nt, '64', 'db') + r'find_child\(std::byte\)'},
         stubs={'LEAF_DEL': LEAFDEL['64'], 'INODE_DEL': INODEDEL % nf}, cfgs=CFG_NODE, thorough_cfgs=ALL_CFGS, unwind=258 if max(frm, to) >= 3 else 20, floor=10, timeout=1200,
         under_contract=['basic_inode_%d<db, uint64_t>::basic_inode_%d(db&, inode_%d&, ...) + init (%s)' % (nt, nt, nf, 'growth' if to > frm else 'shrink')])
+
+# ---- the same node-level contracts on the OLC instantiation (olc_db policy: lock word in the node header, relaxed-atomic fields run sequentially)
+def onode_rx(n): return r'^unodb::detail::(basic_inode_%d<unodb::detail::basic_art_policy<unsigned long, %s, unodb::olc_db, .*>|olc_inode_%d<unsigned long, %s >)::' % (n, SPAN, n, SPAN)
+CFG_OLC = (BASE, DEBUG)
+for cls, n in CLSN.items():
+    for h, alias in (('h_find_child', 'FIND_CHILD'), ('h_get_child', 'GET_CHILD'), ('h_begin', 'BEGIN'), ('h_last', 'LAST'), ('h_next', 'NEXT'), ('h_prior', 'PRIOR'), ('h_gte', 'GTE'), ('h_lte', 'LTE')):
+        job('node.olc64.i%d.%s' % (n, h[2:]), ['C02', 'C16'] + (['C01'] if h in ('h_find_child', 'h_get_child') else []), 'u_olc', 'proofs/node/read.c', entry=h,
+            defines=['CLS=%d' % cls, 'POL=OLC64'], roots={a: ((r'^unodb::detail::olc_inode_16<unsigned long, %s >::' % SPAN) if (n == 16 and a == 'FIND_CHILD') else onode_rx(n)) + rx for a, rx in READ.items()}, cfgs=CFG_OLC, thorough_cfgs=ALL_CFGS,
+            unwind={1: 6, 2: 18, 3: 258, 4: 258}[cls], floor=10, cut=(['%s/for_2econd' % a for a in ('BEGIN', 'LAST', 'NEXT', 'PRIOR', 'GTE', 'LTE')] if cls >= 3 else []), timeout=900,
+            under_contract=['basic_inode_%d<olc_db, uint64_t>::%s' % (n, READ[alias].split('\\')[0])])
